@@ -3,6 +3,7 @@ Clusters = {1, 2, 3}
 RPCs = {1, 2, 3}
 MaxUpdates = 3
 Eager = FALSE
+MaxMult = 2
 Mutant = 0
 INIT Init
 NEXT Next
